@@ -1,6 +1,7 @@
 package checks
 
 import (
+	"bytes"
 	"encoding/json"
 	"fmt"
 	"os"
@@ -301,6 +302,24 @@ func c19Scenario(dirName, fileName, refComp string) *gen.Scenario {
 	return &gen.Scenario{Repo: r, Desc: fmt.Sprintf("dir=%q file=%q ref=%q", clip(dirName), clip(fileName), clip(refComp))}
 }
 
+// sameRendering compares what the real binary printed with the in-process
+// rendering of the same scan, ignoring what is layout and not content: white
+// space between JSON tokens (member order is kept), column widths and padding
+// of the table.
+func sameRendering(isJSON bool, got []byte, want string) bool {
+	if string(got) == want {
+		return true
+	}
+	if isJSON {
+		var a, b bytes.Buffer
+		if json.Compact(&a, got) != nil || json.Compact(&b, []byte(want)) != nil {
+			return false
+		}
+		return a.String() == b.String()
+	}
+	return normTable(string(got)) == normTable(want)
+}
+
 func clip(s string) string {
 	if len(s) > 40 {
 		return fmt.Sprintf("%s...(%d bytes)", s[:20], len(s))
@@ -492,7 +511,7 @@ func c19Worker(sh *explore.Shard) {
 									mk("HARNESS/unmodelled-git-command", "the model git does not implement the read-only command "+u)
 								} else if out.Exit != 0 {
 									mk("cli-error", fmt.Sprintf("the real binary failed (exit %d) with args %v: %s", out.Exit, run.args, tailBytes(out.Stderr, 300)))
-								} else if string(out.Stdout) != run.want {
+								} else if !sameRendering(run.args[1] == "--json", out.Stdout, run.want) {
 									if run.args[1] == "--json" {
 										if _, e := StrictJSON(out.Stdout); e != "" {
 											mk("json", fmt.Sprintf("stdout of the real binary (args %v) is not valid JSON: %s", run.args, e))
@@ -614,6 +633,6 @@ func plainGrouper() sizes.RefGrouper {
 
 func init() {
 	Registry["C19"] = &Check{Level: "exploration", Worker: c19Worker, QuickBudget: 70 * time.Second, ThoroughBudget: 10 * time.Minute,
-		Rule:        "a special-byte alphabet (space, double and single quote, backslash, TAB, LF, CR, 0x01, DEL, invalid UTF-8, multi-byte UTF-8, ':', leading '-', '[1]', printf verbs, braces, U+2028) in four positions (alone, start, middle, end) and long names (255, 256, 4096, 65494, 65495; 70000 in thorough) placed in: directory names, file names (all single placements and a product at reduced alphabet), reference names (only those git check-ref-format accepts; the harness rule is validated against real git on the whole alphabet in every run), ROOT spellings (also as the only root with no reference walked: full and abbreviated object ids, HEAD, @, ~ ^{} ^0 forms), refgroup symbols and display names; scanned in-process in the three name styles. JSON v1 and v2 must pass an independent strict RFC 8259 validator and have the plain-name key set (per-refgroup members excepted); the table must equal row by row (layout ignored) the text constructed from the scan's own citations (numbered 1..k by first citation, equal texts sharing a number, every footnote cited); descriptions are judged as in C08; for every third tree-entry placement the real binary (model git on PATH) must print byte-for-byte the same JSON v1, JSON v2 and table as the in-process rendering of the same scan. non-trivial = every placement",
+		Rule:        "a special-byte alphabet (space, double and single quote, backslash, TAB, LF, CR, 0x01, DEL, invalid UTF-8, multi-byte UTF-8, ':', leading '-', '[1]', printf verbs, braces, U+2028) in four positions (alone, start, middle, end) and long names (255, 256, 4096, 65494, 65495; 70000 in thorough) placed in: directory names, file names (all single placements and a product at reduced alphabet), reference names (only those git check-ref-format accepts; the harness rule is validated against real git on the whole alphabet in every run), ROOT spellings (also as the only root with no reference walked: full and abbreviated object ids, HEAD, @, ~ ^{} ^0 forms), refgroup symbols and display names; scanned in-process in the three name styles. JSON v1 and v2 must pass an independent strict RFC 8259 validator and have the plain-name key set (per-refgroup members excepted); the table must equal row by row (layout ignored) the text constructed from the scan's own citations (numbered 1..k by first citation, equal texts sharing a number, every footnote cited); descriptions are judged as in C08; for every third tree-entry placement the real binary (model git on PATH) must print the same JSON v1, JSON v2 (token for token, member order included) and table (row for row) as the in-process rendering of the same scan. non-trivial = every placement",
 		Assumptions: []string{"reference names are limited to what git itself can hold", "footnote texts are taken from the scan result (Path.String()) and the table is compared with the constructive expected text"}}
 }
